@@ -463,7 +463,9 @@ def gen_pf_case(ctx, rng, corp, j):
             "dump": dump, "target": rng.choice(TARGETS) if dump else "default", "abs_input": rng.random() < 0.5, "in_name": rng.choice(IN_NAMES)}
 
 
-INELIGIBLE = ["notes.txt", "data.json", "README", "readme.md", "old.sql.bak", "x.py", "table.csv", "y.sqlx", "Makefile"]
+INELIGIBLE = ["notes.txt", "data.json", "README", "readme.md", "old.sql.bak", "x.py", "table.csv", "y.sqlx", "Makefile",
+              # names without any dot that ARE one of the four extension words
+              "sql", "hql", "ddl", "bql", "sql", "hql"]
 
 
 def gen_cli_case(ctx, rng, corp, subprocess_=False, dir_mode=None):
@@ -482,7 +484,7 @@ def gen_cli_case(ctx, rng, corp, subprocess_=False, dir_mode=None):
         if rng.random() < 0.25 and "" not in stems:
             stems.add("")
             files.append((rng.choice([".init.sql", ".hidden.ddl"]), gen_text(ctx, rng, corp).encode("utf-8").hex()))      # a hidden file is a .sql file too
-        for name in rng.sample(INELIGIBLE, rng.randint(0, 3)):
+        for name in rng.sample(INELIGIBLE, rng.randint(0, 4)):
             if stem_of(name) not in stems:
                 stems.add(stem_of(name))
                 files.append((name, (gen_text(ctx, rng, corp) if rng.random() < 0.7 else "not sql at all {").encode("utf-8").hex()))
